@@ -289,4 +289,40 @@ def extra_checks(rng, tier, notes):
                         f"resolve differently from Grids built with fresh copies: {res[0]} vs {res[1]}; "
                         f"mapping afterwards: {b_shared}"))
     notes.append(f"{done} pairs of Grids built from shared partial mappings compared with fresh mappings")
+    out.extend(nan_checks(rng, tier, notes))
+    return out
+
+
+def nan_checks(rng, tier, notes):
+    """Every original value stays in place -- missing values (NaN) included, under every rule."""
+    import numpy as np
+    import xarray as xr
+    from xgcm.padding import pad
+    out = []
+    n = 40 if tier == "quick" else 400
+    for _ in range(n):
+        nx, ny = rng.randint(2, 4), rng.randint(2, 4)
+        c = {"coords": [["X", [["center", "x_c"]]], ["Y", [["center", "y_c"]]]], "N": {"X": nx, "Y": ny},
+             "periodic": False, "boundary": None, "fill": None}
+        _, g, _ = build_grid(c)
+        vals = np.array([[float(rng.randint(-5, 9)) for _ in range(nx)] for _ in range(ny)])
+        for _k in range(rng.randint(1, 3)):
+            vals[rng.randrange(ny), rng.randrange(nx)] = np.nan
+        da = xr.DataArray(vals, dims=["y_c", "x_c"])
+        rule = {"X": rng.choice(WORDS), "Y": rng.choice(WORDS)}
+        fillv = {"X": rng.choice([0, 3, -2]), "Y": rng.choice([5, 7])}
+        lo, hi, lo2, hi2 = [rng.randint(0, 2) for _ in range(4)]
+        bw = {"X": (lo, hi), "Y": (lo2, hi2)}
+        case = {"ctor": c, "call": None, "vals": [[None if np.isnan(v) else v for v in row] for row in vals.tolist()],
+                "rule": rule, "fill": fillv, "bw": bw}
+        try:
+            r = pad(da, g, boundary_width=bw, boundary=rule, fill_value=fillv).transpose("y_c", "x_c").values
+            inner = r[lo2:lo2 + ny, lo:lo + nx]
+            ok = inner.shape == vals.shape and np.array_equal(inner, vals, equal_nan=True)
+            obs = {"interior": [[None if np.isnan(v) else v for v in row] for row in inner.tolist()]}
+        except Exception as e:
+            ok, obs = False, {"err": f"{type(e).__name__}: {e}"[:200]}
+        if not ok:
+            out.append((case, obs, f"padding changed an original value (missing values included): {case} -> {obs}"))
+    notes.append(f"{n} arrays with missing values padded under random rules: interior compared NaN-aware")
     return out
